@@ -4,6 +4,7 @@
 -/
 import Proofs.Lemmas.EquivarianceSift
 import Proofs.Lemmas.Mask
+import Mathlib.Data.Rat.Floor
 
 namespace Mask
 open Pool
@@ -21,6 +22,64 @@ def StdAbsHom (c : Rat) (std : Sig → Rat) : Prop := ∀ y, std (Sig.smul c y) 
 /-- the phase set of `p` masks is closed under the shift by π: mask `i + p/2` is the negated mask `i` -/
 def ShiftClosed (unit : Rat → Nat → Nat → Sig) (p : Nat) : Prop :=
   ∀ f i, i < p → unit f p ((i + p / 2) % p) = Sig.neg (unit f p i)
+
+/-- The waveform's phase set is closed under the half-turn when the number of phases is even — from the single
+    oracle fact `cos(2π(x + 1/2)) = −cos(2πx)`: phase `i + p/2 (mod p)` is `i/p + 1/2` or `i/p − 1/2` of a turn. -/
+theorem unitOf_shiftClosed (cosTurn : Rat → Rat) (hc : ∀ x, cosTurn (x + 1 / 2) = - cosTurn x) (n p : Nat)
+    (heven : p % 2 = 0) : ShiftClosed (unitOf cosTurn n) p := by
+  intro f i hi
+  have hp : p = p / 2 + p / 2 := by omega
+  have hpos : (0 : Rat) < (p : Rat) := by exact_mod_cast (by omega : 0 < p)
+  have hhalf : ((p / 2 : Nat) : Rat) / (p : Rat) = 1 / 2 := by
+    have : (p : Rat) = ((p / 2 : Nat) : Rat) + ((p / 2 : Nat) : Rat) := by exact_mod_cast hp
+    rw [div_eq_iff (ne_of_gt hpos)]
+    linarith
+  unfold unitOf Sig.neg
+  rw [List.map_map]
+  apply List.map_congr_left
+  intro t _
+  simp only [Function.comp, maskPhase]
+  by_cases hlt : i + p / 2 < p
+  · rw [Nat.mod_eq_of_lt hlt, ← hc]
+    congr 1
+    push_cast
+    rw [add_div, hhalf]; ring
+  · have hmod : (i + p / 2) % p = i + p / 2 - p := by
+      rw [Nat.mod_eq_sub_mod (by omega), Nat.mod_eq_of_lt (by omega)]
+    have hcast : ((i + p / 2 - p : Nat) : Rat) = (i : Rat) + ((p / 2 : Nat) : Rat) - (p : Rat) := by
+      rw [Nat.cast_sub (by omega)]; push_cast; ring
+    have hx : f * (t : Rat) + ((i + p / 2 - p : Nat) : Rat) / (p : Rat) + 1 / 2 = f * (t : Rat) + (i : Rat) / (p : Rat) := by
+      rw [hcast, sub_div, add_div, hhalf, div_self (ne_of_gt hpos)]; ring
+    rw [hmod]
+    have := hc (f * (t : Rat) + ((i + p / 2 - p : Nat) : Rat) / (p : Rat))
+    rw [hx] at this
+    rw [this]; ring
+
+/-- the phase grid: 0, 1/p, 2/p, … < 1 turn -/
+theorem maskPhase_grid (p : Nat) (hp : 0 < p) :
+    maskPhase p 0 = 0 ∧ (∀ i, maskPhase p (i + 1) - maskPhase p i = 1 / (p : Rat)) ∧
+    ∀ i, i < p → 0 ≤ maskPhase p i ∧ maskPhase p i < 1 := by
+  have hpos : (0 : Rat) < (p : Rat) := by exact_mod_cast hp
+  refine ⟨by simp [maskPhase], fun i => ?_, fun i hi => ⟨?_, ?_⟩⟩
+  · unfold maskPhase; push_cast; field_simp; ring
+  · unfold maskPhase; exact div_nonneg (by exact_mod_cast Nat.zero_le i) (le_of_lt hpos)
+  · unfold maskPhase; rw [div_lt_one hpos]; exact_mod_cast hi
+
+/-- a square wave with the half-turn antisymmetry of the cosine (witness for the oracle hypothesis) -/
+def sqTurn : Rat → Rat := fun x => if (2 * x).floor % 2 = 0 then 1 else -1
+theorem sqTurn_half (x : Rat) : sqTurn (x + 1 / 2) = - sqTurn x := by
+  have h : (2 * (x + 1 / 2)).floor = (2 * x).floor + 1 := by
+    have : 2 * (x + 1 / 2) = 2 * x + 1 := by ring
+    rw [this]
+    show ⌊2 * x + 1⌋ = ⌊2 * x⌋ + 1
+    exact Int.floor_add_one _
+  unfold sqTurn
+  rw [h]
+  rcases Int.emod_two_eq_zero_or_one (2 * x).floor with h0 | h1
+  · have : ((2 * x).floor + 1) % 2 = 1 := by omega
+    simp [h0, this]
+  · have : ((2 * x).floor + 1) % 2 = 0 := by omega
+    simp [h1, this]
 
 /-! ### averaging -/
 
